@@ -585,6 +585,11 @@ qb_ipcc_us_connect(struct qb_ipcc_connection * c,
 	c->funcs.fc_get = qb_ipc_us_fc_get;
 	c->funcs.disconnect = qb_ipcc_us_disconnect;
 
+	/* nothing opened yet (0 is somebody's descriptor) */
+	c->request.u.us.sock = -1;
+	c->event.u.us.sock = -1;
+	c->request.u.us.shared_data = NULL;
+
 	fd_hdr = qb_sys_mmap_file_open(path, r->request,
 				       SHM_CONTROL_SIZE, O_RDWR);
 	if (fd_hdr < 0) {
@@ -628,10 +633,16 @@ cleanup_hdr:
 	if (fd_hdr >= 0) {
 		close(fd_hdr);
 	}
-	close(c->event.u.us.sock);
-	close(c->request.u.us.sock);
+	if (c->event.u.us.sock >= 0) {
+		close(c->event.u.us.sock);
+	}
+	if (c->request.u.us.sock >= 0) {
+		close(c->request.u.us.sock);
+	}
 	unlink(r->request);
-	munmap(c->request.u.us.shared_data, SHM_CONTROL_SIZE);
+	if (c->request.u.us.shared_data != NULL) {
+		munmap(c->request.u.us.shared_data, SHM_CONTROL_SIZE);
+	}
 	return res;
 }
 
